@@ -63,12 +63,14 @@ def _derive(a: str) -> str:
     if a in ('fresh', 'unknown', 'global') or a.startswith(('g:', 'd:')):
         return a
     if a.startswith('sh:'):
-        return 'd:' + a[3:]        # a leaf handed out by a GraphModule built over a[3:]
+        return 'd:' + owner(a[3:])  # a leaf handed out by a GraphModule built over a[3:]
     return 'd:' + a
 
 
 def owner(a: str) -> str:
-    return a[2:] if a.startswith('d:') else a
+    while a.startswith('d:'):
+        a = a[2:]
+    return a
 
 
 @dataclass
@@ -104,6 +106,8 @@ class Effects:
         self.resolved_calls = 0
         self.tracer_base = 'torch.fx.Tracer'
         self._fresh_fn: Dict[str, bool] = {}
+        self._fresh_m: Dict[str, bool] = {}
+        self._stored_guard: Set[tuple] = set()
         self._alias: Dict[Tuple[str, str], List[FunctionInfo]] = {}
         self._getters: Dict[str, List[FunctionInfo]] = {}
 
@@ -151,6 +155,17 @@ class Effects:
                 else:
                     out.add(_derive(a))
             return frozenset(out)
+        if k == 'sub' and t[2][0] == 'const' and t[2][1] in (0, 1, 2) and \
+                self._is_leaf_triple(t[1]):
+            # NamedLeafModules = List[Tuple[str, fx.Node, nn.Module]] (graph/utils.py)
+            r = self.root(t[1], p, fn, depth + 1)
+            if t[2][1] == 0:
+                return FRESH
+            if t[2][1] == 1:
+                return frozenset(a if a in ('fresh', 'unknown', 'global') or a.startswith('g:')
+                                 else 'g:' + owner(a[3:] if a.startswith('sh:') else a)
+                                 for a in r)
+            return frozenset(_derive(a) for a in r)
         if k in ('sub', 'elem', 'starred', 'enter'):
             r = self.root(t[1], p, fn, depth + 1)
             return frozenset(_derive(a) for a in r)
@@ -158,11 +173,13 @@ class Effects:
             out = set()
             for x in t[1]:
                 out |= self.root(x, p, fn, depth + 1)
+            out |= self._stored_into(t, p, fn, depth)
             return frozenset(out or {'fresh'})
         if k == 'dict':
             out = set()
             for _, v in t[1]:
                 out |= self.root(v, p, fn, depth + 1)
+            out |= self._stored_into(t, p, fn, depth)
             return frozenset(out or {'fresh'})
         if k == 'comp':
             out = set()
@@ -182,6 +199,74 @@ class Effects:
             return self.call_root(t, p, fn, depth)
         return frozenset({'unknown'})
 
+    def _stored_into(self, lit: Term, p: State, fn: FunctionInfo, depth: int) -> Set[str]:
+        """Roots of the values that this path stores into a local container literal (through
+        subscript stores, append / add / extend / setdefault on it or on its elements)."""
+        gkey = (lit, id(p))
+        if gkey in self._stored_guard:
+            return set()
+        self._stored_guard.add(gkey)
+        try:
+            return self._stored_into_inner(lit, p, fn)
+        finally:
+            self._stored_guard.discard(gkey)
+
+    def _stored_into_inner(self, lit: Term, p: State, fn: FunctionInfo) -> Set[str]:
+        depth = 0
+
+        def bottoms_at(x: Term) -> bool:
+            while x[0] in ('sub', 'elem'):
+                x = x[1]
+            mc_ = method_call(x) if x[0] == 'call' else None
+            if mc_ and mc_[1] in ('setdefault', 'get'):
+                return bottoms_at(mc_[0])
+            return x == lit
+        out: Set[str] = set()
+        for e in p.events:
+            if e.kind == 'setitem' and bottoms_at(e.data[0]):
+                v = e.data[2]
+                if not (v[0] in ('list', 'dict') and not v[1]):
+                    out |= {a for a in self.root(v, p, fn, 0) if a != 'fresh'}
+            elif e.kind == 'call':
+                mc = method_call(e.data[0])
+                if mc and mc[1] in ('append', 'add', 'extend', 'insert', 'setdefault') and \
+                        bottoms_at(mc[0]) and mc[2]:
+                    v = mc[2][-1]
+                    out |= {a for a in self.root(v, p, fn, 0) if a != 'fresh'}
+        return {_derive(a) for a in out}
+
+    @staticmethod
+    def _is_leaf_triple(t: Term) -> bool:
+        """An element of a NamedLeafModules list: produced by named_leaf_modules /
+        uniquify_leaf_modules or stored in the *_leaf_modules attributes."""
+        if t[0] != 'elem':
+            return False
+        src = t[1]
+        for x in subterms(src):
+            if x[0] == 'attr' and x[2] in ('_leaf_modules', '_unique_leaf_modules'):
+                return True
+            c = callee(x) if x[0] == 'call' else None
+            if c and c.endswith(('named_leaf_modules', 'uniquify_leaf_modules')):
+                return True
+        return False
+
+    def _method_returns_fresh(self, name: str) -> bool:
+        """Every repository method of that name returns a container built in its own
+        activation (dict / list literal or comprehension), e.g. summary()."""
+        if name not in self._fresh_m:
+            ms = [c.methods[name] for c in self.repo.classes.values() if name in c.methods]
+            ok = bool(ms)
+            for m in ms:
+                rets = [q.retval for q in paths(self.repo, m) if q.status == 'return']
+                if not rets:
+                    continue        # abstract (raises)
+                for r in rets:
+                    if r is None or not (r[0] in ('dict', 'list', 'comp', 'set') or
+                                         callee(r) in ('builtins.dict', 'builtins.list')):
+                        ok = False
+            self._fresh_m[name] = ok
+        return self._fresh_m[name]
+
     def _is_tracer(self, t: Term) -> bool:
         c = callee(t)
         if c in self.repo.classes:
@@ -199,7 +284,7 @@ class Effects:
             return FRESH
         if c == 'torch.fx.GraphModule' or (c and c.endswith('.GraphModule')):
             r = self.root(t[2][0], p, fn, depth + 1) if t[2] else FRESH
-            return frozenset('sh:' + a if not a.startswith('sh:') and a != 'fresh' else a
+            return frozenset('sh:' + owner(a) if not a.startswith('sh:') and a != 'fresh' else a
                              for a in r)
         if c in VIEW_BUILTINS:
             out = set()
@@ -222,6 +307,8 @@ class Effects:
             if name == 'get_modified_vars':
                 return FRESH        # verified to return dict(vars(self)) by C04/C05
             if name in ('apply',):
+                return FRESH
+            if self._method_returns_fresh(name):
                 return FRESH
             out = set(r)
             for a in t[2]:
@@ -248,7 +335,14 @@ class Effects:
 
     @staticmethod
     def fresh_container(t: Term) -> bool:
-        """Direct writes into this object cannot reach caller-owned state."""
+        """Direct writes into this object cannot reach caller-owned state.  A chain of
+        subscripts that bottoms at a container literal created in this activation designates
+        a nested local container (``d = {}; d[k] = []; d[k].append(x)``)."""
+        while t[0] in ('sub',):
+            t = t[1]
+        mc0 = method_call(t) if t[0] == 'call' else None
+        if mc0 and mc0[1] in ('setdefault', 'get') and mc0[0][0] in ('dict', 'list'):
+            return True
         if t[0] in ('dict', 'list', 'set', 'comp', 'tuple'):
             return True
         c = callee(t)
